@@ -836,3 +836,7 @@ impl AssociationMap {
         Next::None
     }
 }
+
+#[cfg(kani)]
+#[path = "/verif/harness/master_association.rs"]
+mod verif_harness;
